@@ -531,12 +531,9 @@ pub fn oracle(base: &Base, id: usize, v: &Val, origin: &str, out: &mut Out) {
         out.oracle_checks += 1;
         if *n == name {
             if *g != want[k].1 {
-                // D24: a break from -0.0 to +0.0
-                let cls = match v {
-                    Val::Breaks(l) if l.iter().any(|(s, e)| *s == 0.0 && *e == 0.0 && s.is_sign_negative() && e.is_sign_positive()) => "D24",
-                    _ => "",
-                };
-                out.fail(cls, &desc, &format!("edited field {} was set to {} and reads back as {}", n, want[k].1, g));
+                // no recorded class: every representable value reads back bit for bit (a break between
+                // the two zeros included -- the former finding D24 is repaired)
+                out.fail("", &desc, &format!("edited field {} was set to {} and reads back as {}", n, want[k].1, g));
             }
         } else {
             // special style is carried in mania only: a mode edit legitimately changes whether it is
@@ -615,7 +612,8 @@ pub fn generate(tier: &str, seed: u64, out: &mut Out) {
                 oracle(b, id, &Val::F64(x), o, out);
             }
         }
-        for br in [(-0.0, 0.0), (0.0, 0.0), (-0.0, -0.0), (5.0, 5.0), (-2147483647.0, 2147483647.0)] {
+        // breaks between the two zeros in both sign orders, equal start and end, the widest break
+        for br in [(-0.0, 0.0), (0.0, -0.0), (0.0, 0.0), (-0.0, -0.0), (5.0, 5.0), (-5.0, -5.0), (-2147483647.0, 2147483647.0)] {
             oracle(b, 35, &Val::Breaks(vec![br]), o, out);
         }
     }
